@@ -5,15 +5,19 @@ namespace Amqp
 theorem wadd32_lt (a b : Nat) : wadd32 a b < 4294967296 := by
   unfold wadd32; omega
 
+theorem wsub32_spec (a b : Nat) :
+    wsub32 a b = (a % 4294967296 + 4294967296 - b % 4294967296) % 4294967296 := by
+  unfold wsub32; split <;> omega
+
 theorem wsub32_lt (a b : Nat) : wsub32 a b < 4294967296 := by
-  unfold wsub32; omega
+  rw [wsub32_spec]; omega
 
 theorem sdist_self (a : Nat) (h : a < 4294967296) : sdist a a = 0 := by
-  unfold sdist wsub32; omega
+  unfold sdist; rw [wsub32_spec]; omega
 
 /-- advancing the target by one advances the distance by one, unless it wraps -/
 theorem sdist_succ (a b : Nat) (ha : a < 4294967296) (hb : b < 4294967296)
     (h : sdist a b + 1 < 4294967296) : sdist a (wadd32 b 1) = sdist a b + 1 := by
-  unfold sdist wsub32 wadd32 at *; omega
+  simp only [sdist, wsub32_spec, wadd32] at *; omega
 
 end Amqp
